@@ -1,53 +1,14 @@
 //! Deterministic simulation harness for breez/trampoline (see /verif/DESIGN.md).
+pub mod cli;
+pub mod content;
+pub mod engine;
+pub mod node;
+pub mod ops;
+pub mod oracle;
+pub mod reference;
 pub mod rng;
+pub mod sched;
 pub mod seam;
+pub mod world;
 
-pub fn cli() -> i32 {
-    std::env::set_var("RUST_BACKTRACE", "0");
-    std::env::set_var("RUST_LIB_BACKTRACE", "0");
-    std::env::set_var("CLN_PLUGIN_LOG", "trace");
-    seam::install_panic_hook();
-    let rt = tokio::runtime::Builder::new_current_thread()
-        .enable_time()
-        .start_paused(true)
-        .rng_seed(tokio::runtime::RngSeed::from_bytes(b"seed"))
-        .build()
-        .unwrap();
-    let mut ctx = seam::Ctx::new();
-    ctx.log_enabled = true;
-    seam::install(ctx);
-    rt.block_on(async {
-        seam::with(|c| c.wall.origin = Some(tokio::time::Instant::now()));
-        tokio::spawn(async {
-            let r = crate::main().await;
-            seam::push_event(seam::PluginEvent::MainReturned(r.map_err(|e| format!("{:?}", e))));
-        });
-        let settle = || async {
-            tokio::time::sleep(std::time::Duration::from_millis(1)).await;
-            tokio::time::sleep(std::time::Duration::from_millis(1)).await;
-        };
-        let dump = || {
-            for ev in seam::take_events() {
-                match ev {
-                    seam::PluginEvent::Stdout(b) => println!("OUT {}", String::from_utf8_lossy(&b).trim_end()),
-                    other => println!("EV {:?}", other),
-                }
-            }
-        };
-        let send = |v: serde_json::Value| {
-            let mut s = v.to_string().into_bytes();
-            s.extend_from_slice(b"\n\n");
-            let n = s.len();
-            seam::stdin_push(&s, n);
-        };
-        settle().await; dump();
-        send(serde_json::json!({"jsonrpc":"2.0","id":"a1","method":"getmanifest","params":{"allow-deprecated-apis":false}}));
-        settle().await; dump();
-        send(serde_json::json!({"jsonrpc":"2.0","id":"a2","method":"init","params":{"options":{},"configuration":{"lightning-dir":"/l","rpc-file":"lightning-rpc","startup":true,"network":"regtest","feature_set":{"init":"","node":"","channel":"","invoice":""}}}}));
-        settle().await; dump();
-    });
-    seam::drop_subscriber();
-    drop(rt);
-    seam::uninstall();
-    0
-}
+pub use cli::cli;
